@@ -20,12 +20,11 @@ theorem C29_build_iff (is : List Instr) : (build is).isSome = is.all (·.support
 /-- **Edges = "next instruction on a shared qubit"**: the graph has the instructions as nodes and an
 edge `a → b` exactly when `b` is the next instruction after `a` on some qubit they share; in
 particular every edge goes forward (no self-loop, no cycle) -/
-theorem C29_edges (is : List Instr) (g : Graph) (h : build is = some g) :
-    g.instrs = is ∧ ∀ a b, (a, b) ∈ g.edges ↔ NextOn is a b :=
+theorem C29_edges (is : List Instr) (g : Graph) (h : build is = some g) : Represents is g :=
   build_edges is g h
 
 /-- **`path_fold` halts** on every built graph once the fuel reaches `fuelBound g` -/
-theorem C29_pathFold_terminates {T : Type} (is : List Instr) (g : Graph) (h : build is = some g)
+theorem C29_pathFold_terminates {T : Type} (is : List Instr) (g : Graph) (h : Represents is g)
     (f : T → Nat → T) (init : T) (fuel : Nat) (hfuel : fuelBound g ≤ fuel) :
     ∃ out, pathFold g f init fuel = some out :=
   pathFold_terminates g (build_forward is g h) f init fuel hfuel
@@ -39,19 +38,19 @@ theorem C29_pathFold_paths {T : Type} (g : Graph) (f : T → Nat → T) (init : 
   pathFold_mem g f init fuel out h x
 
 /-- the source-to-sink paths are chains in the sense of the statement -/
-theorem C29_path_is_chain (is : List Instr) (g : Graph) (h : build is = some g) (p : List Nat)
+theorem C29_path_is_chain (is : List Instr) (g : Graph) (h : Represents is g) (p : List Nat)
     (hp : PathFrom g (sources g) p) (hne : p ≠ []) : IsChain is p := by
   have hf := build_forward is g h
-  obtain ⟨hi, _⟩ := build_edges is g h
+  have hi := h.1
   obtain ⟨h1, h2, _⟩ := pathFrom_chain g hf p (sources g) (sources_lt g) hp
   exact (isChain_iff is g h p).2 ⟨hne, h1, fun v hv => by rw [← hi]; exact h2 v hv⟩
 
 /-- every chain is contained in a source-to-sink path that counts at least as many qualifying gates -/
-theorem C29_chain_extends (is : List Instr) (g : Graph) (h : build is = some g) (k : Nat)
+theorem C29_chain_extends (is : List Instr) (g : Graph) (h : Represents is g) (k : Nat)
     (c : List Nat) (hc : IsChain is c) :
     ∃ p, PathFrom g (sources g) p ∧ chainCount is k c ≤ chainCount is k p := by
   have hf := build_forward is g h
-  obtain ⟨hi, _⟩ := build_edges is g h
+  have hi := h.1
   obtain ⟨hne, hgc, hlt⟩ := (isChain_iff is g h c).1 hc
   cases c with
   | nil => exact absurd rfl hne
@@ -70,11 +69,11 @@ theorem C29_chain_extends (is : List Instr) (g : Graph) (h : build is = some g) 
 /-- **Gate depth = longest chain.**  For every supported block and every threshold `k`, with
 sufficient fuel `gate_depth(k)` returns a number `d` such that no chain has more than `d` gates
 acting on ≥ `k` qubits and some chain has exactly `d` (or the block is empty and `d = 0`). -/
-theorem C29_gate_depth (is : List Instr) (g : Graph) (h : build is = some g) (k fuel : Nat)
+theorem C29_gate_depth (is : List Instr) (g : Graph) (h : Represents is g) (k fuel : Nat)
     (hfuel : fuelBound g ≤ fuel) :
     ∃ d, gateDepth g k fuel = some d ∧ IsLongestChain is k d := by
   have hf := build_forward is g h
-  obtain ⟨hi, _⟩ := build_edges is g h
+  have hi := h.1
   obtain ⟨out, hout⟩ := pathFold_terminates g hf (countStep g k) 0 fuel hfuel
   have hmem := pathFold_mem g (countStep g k) 0 fuel out hout
   refine ⟨maxList out, by simp [gateDepth, hout], ?_, ?_⟩
@@ -123,12 +122,35 @@ theorem C29_longest_unique (is : List Instr) (k d d' : Nat)
 
 /-- hence the model's output is *the* longest-chain count: the Bool check `gateDepth … == some d`
 that the driver applies to the implementation's answer `d` is equivalent to the specification -/
-theorem C29_checker (is : List Instr) (g : Graph) (h : build is = some g) (k fuel d : Nat)
+theorem C29_checker (is : List Instr) (g : Graph) (h : Represents is g) (k fuel d : Nat)
     (hfuel : fuelBound g ≤ fuel) : gateDepth g k fuel = some d ↔ IsLongestChain is k d := by
   obtain ⟨d0, hd0, hs0⟩ := C29_gate_depth is g h k fuel hfuel
   constructor
   · intro hd; rw [hd0] at hd; cases hd; exact hs0
   · intro hs; rw [hd0, C29_longest_unique is k d0 d hs0 hs]
+
+/-! ### The depth depends only on the edge relation -/
+
+/-- removing duplicate (parallel) edges keeps a graph a representation of the block -/
+theorem C29_represents_dedup (is : List Instr) (g : Graph) (h : Represents is g) :
+    Represents is ⟨g.instrs, g.edges.eraseDups⟩ :=
+  ⟨h.1, fun a b => by simp only [List.mem_eraseDups]; exact h.2 a b⟩
+
+/-- **two graphs with the same edge relation have the same gate depth**, whatever the multiplicity or
+order of their edges (e.g. with or without a parallel edge per shared qubit) -/
+theorem C29_depth_relation_invariant (is : List Instr) (g g' : Graph) (h : Represents is g)
+    (h' : Represents is g') (k fuel fuel' : Nat) (hf : fuelBound g ≤ fuel) (hf' : fuelBound g' ≤ fuel') :
+    gateDepth g k fuel = gateDepth g' k fuel' := by
+  obtain ⟨d, hd, hs⟩ := C29_gate_depth is g h k fuel hf
+  obtain ⟨d', hd', hs'⟩ := C29_gate_depth is g' h' k fuel' hf'
+  rw [hd, hd', C29_longest_unique is k d d' hs hs']
+
+/-- in particular for the graph `build` produces and its de-duplicated version -/
+example (is : List Instr) (g : Graph) (h : build is = some g) (k : Nat) :
+    gateDepth g k (fuelBound g) =
+      gateDepth ⟨g.instrs, g.edges.eraseDups⟩ k (fuelBound ⟨g.instrs, g.edges.eraseDups⟩) :=
+  C29_depth_relation_invariant is g _ (C29_edges is g h) (C29_represents_dedup is g (C29_edges is g h)) k _ _
+    (Nat.le_refl _) (Nat.le_refl _)
 
 /-! ### Non-vacuity -/
 
